@@ -2,7 +2,7 @@ SPECIFICATION FairSpec
 CONSTANTS
   Threads = {1, 2}
   VarOf <- SameVar2
-  LockOf <- SameVar2
+  LockOf <- OwnLock2
   Chunks <- Ch2
   SharedHandle = TRUE
   UseLock = TRUE
